@@ -128,6 +128,9 @@ func genCachePlan(tp *simrt.Tape, seed uint64, tier string) any {
 		if tp.Chance(1, 6) {
 			c = 1 + tp.Draw(2000)
 		}
+		if c > 65535 {
+			c = 65535 // the property quantifies over capacities 1..65535 (New refuses more)
+		}
 		p.Resizer = append(p.Resizer, cacheOp{Kind: k, Cap: c})
 	}
 	nr := tp.Weighted(1, 3, 2, 1, 1, 1)
